@@ -118,6 +118,34 @@ def figures_within_bounds(docs):
     return fails
 
 
+def figures_reach_threshold(cfgs, docs):
+    """every figure reported at threshold t -- on a constraint line or for an alternative in a comment -- is at
+    least t: a candidate (property, kind, cardinality) below the threshold is filtered before anything is printed, so
+    "at threshold 1 only features of all instances remain" holds for the alternatives too, not only for the keys
+    (seed C12-m5: the exact-cardinality buckets of an entry whose '+' bucket passes were let through unchecked).
+    Counts are compared exactly (count / instances of the shape), ratios with the tolerance of their rounding."""
+    fails = []
+    for c, d in zip(cfgs, docs):
+        t = Fraction(*c["thr"])
+        if t == 0:
+            continue
+        for sh in d["shapes"]:
+            for con in sh["constraints"]:
+                figs = [(con["values"][0] if len(con["values"]) == 1 else "OR", con.get("card"), con["fig"])]
+                figs += [(k.get("obj") or "merged", k.get("card"), k["fig"]) for k in con["comments"] if "fig" in k]
+                for kind, card, (rs, cnt) in figs:
+                    low = None
+                    if cnt is not None and sh["n"]:
+                        low = Fraction(cnt, sh["n"]) < t
+                    elif rs is not None:
+                        low = float(rs) / 100 < float(t) - 1e-4
+                    if low:
+                        fails.append((None, "threshold %s: %s %s%s %s %s is reported with %s" % (
+                            t, sh["label"], "^ " if con["inv"] else "", con["pred"], kind, card,
+                            ("%s %%" % rs) if rs is not None else ("%d of %s instances" % (cnt, sh["n"])))))
+    return fails
+
+
 def check_repeated(ts, cfgs, docs):
     """the anchors are judged on the set of triples.  One adjustment, computed from the data: with instances_cap the
     unchanged code lets every typing STATEMENT take a place under the cap (C10-F7's root cause: no membership test
@@ -153,7 +181,9 @@ class Spec(pipeprops.PropSpec):
             "round-robin; non-trivial = some class with >= 2 instances and some non-typing triple; plus the shape-map "
             "stream (vp.pipemap; selectors answering IRIs) at a grid of thresholds on the k/n boundaries of the label "
             "sizes; plus documents with repeated statements (1..3 typing statements and, in half of them, 1..3 "
-            "ordinary ones written 2..4 times) at a grid that also holds the k/n boundaries of the statement counts")
+            "ordinary ones written 2..4 times) at a grid that also holds the k/n boundaries of the statement counts; "
+            "on documents without repeated statements every figure reported at threshold t (line or comment) must be "
+            ">= t")
 
     def gen_cases(self, tier, rnd):
         n = 6000 if tier == "thorough" else 400
@@ -187,6 +217,8 @@ class Spec(pipeprops.PropSpec):
             fails, n = check_repeated(ts, cfgs, docs)
         else:
             fails, n = pipespec.check_monotone(ts, cfgs, docs)
+        if len(set(ts)) == len(ts):
+            fails = fails + figures_reach_threshold(cfgs, docs)
         return fails + figures_within_bounds(docs), n
 
 
